@@ -328,6 +328,8 @@ def check_fit_emit(ctx, replay, out):
                 ctx.count("fit emit: hypotheses of fit_emits_valid_payload_of_inv hold (%s slice)" % cls)
                 if replay.get("payload") is not None:
                     ctx.mismatch("fitEmit:valid-invariant-but-payload-invalid", replay, None, replay.get("payload"))
+        if rel.get("validRun") is not None:
+            ctx.count("fit emit: validity invariant after every iteration (%s slice): %s" % (cls, rel["validRun"]))
         if rel.get("inStep") is not None:
             ctx.count("fit emit: in-step invariant over the loop (%s slice): %s" % (cls, rel["inStep"]))
             if rel["inStep"] and g.get("wf") is not True:
